@@ -52,6 +52,24 @@ fn make_units(rng: &mut Rng, k: usize) -> Vec<Unit> {
             v.push(u);
             continue;
         }
+        // ... and some are siblings: the very same ranges and scope on another flop (the same hole cards meet the
+        // same turn and river on different boards)
+        if i > 0 && rng.chance(1, 5) {
+            let j = rng.usize_below(i);
+            let mut flop = textured_flop(rng, i);
+            // keep the flop off the ranges' cards so that the sibling deals something
+            for _ in 0..20 {
+                if v[j].case.ranges.iter().flatten().all(|(p, _)| !flop.contains(&p.0) && !flop.contains(&p.1)) {
+                    break;
+                }
+                flop = textured_flop(rng, i + 1);
+            }
+            let case = EnumCase::collect(&format!("ev{}", i), flop, v[j].case.ranges.clone());
+            let cfg = crate::refmodel::enumerate::Config { flop, ranges: v[j].cfg.ranges.clone() };
+            let u = Unit { case, ranges: v[j].ranges.clone(), cfg, scope: v[j].scope };
+            v.push(u);
+            continue;
+        }
         let flop = textured_flop(rng, i);
         let cards: Vec<u8> = rng.sample(52, 12).into_iter().map(|c| c as u8).collect();
         let players = 1 + rng.usize_below(3);
